@@ -133,3 +133,15 @@ Definition wgo (D : nfilter) (rec : itree -> list nid) :=
     end.
 Fixpoint wdesc (D : nfilter) (s : itree) : list nid :=
   match s with INode _ _ kids => wgo D (wdesc D) kids false end.
+
+(* ---- the index path of a node: the child indexes from the root down to it ---- *)
+Definition rpath_kids (rec : itree -> option (list nat)) :=
+  fix go (i : nat) (l : list itree) : option (list nat) :=
+    match l with
+    | [] => None
+    | k :: r => match rec k with Some p => Some (i :: p) | None => go (S i) r end
+    end.
+Fixpoint rpath (n : nid) (t : itree) : option (list nat) :=
+  match t with
+  | INode i _ kids => if N.eqb i n then Some [] else rpath_kids (rpath n) 0 kids
+  end.
